@@ -93,7 +93,7 @@ func TestC19(t *testing.T) {
 	if os.Getenv("VERIF_TIER") == "thorough" {
 		maxLen = 8 << 20
 	}
-	col := ev.Get("C19", "output", "1-6 jobs x 1-4 tasks running at the same time through the real TaskRunner; each task has 1-4 commands, each 'vhelper emit <spec>' (a generated sequence of stdout/stderr chunks with pauses; sizes 0 B to 300 KB, 8 MB in the thorough tier; partial last lines; arbitrary bytes or valid UTF-8) an interpreter builtin (echo/printf), a child that re-opens /dev/stdout or /dev/stderr by path (> and >>), and emit commands whose streams the script merges (2>&1, 1>&2: the log must keep the order of the writes); every chunk starts with a (job,task,stream,#) marker; task names over letters/digits/_-. space and non-ASCII; oracle: FileOutputStore.Reader(job,task,stream) equals the concatenation, in order, of that task's chunks for that stream over all its commands, GET /job/logs returns the same as strings (UTF-8 tasks), a task the job does not have and an unknown job give 404; a sixth of the tasks end with a failing command (their output up to it must still be complete) and half of the cases run a second round of the same jobs on the same store; non-trivial = >=64 KiB on a stream or >=2 commands or both streams used, with >=2 tasks writing at once; distinct by (shape of the case)")
+	col := ev.Get("C19", "output", "1-6 jobs x 1-4 tasks running at the same time through the real TaskRunner; each task has 1-4 commands, each 'vhelper emit <spec>' (a generated sequence of stdout/stderr chunks with pauses; sizes 0 B to 300 KB, 8 MB in the thorough tier; partial last lines; arbitrary bytes or valid UTF-8) an interpreter builtin (echo/printf), a child that re-opens /dev/stdout or /dev/stderr by path (> and >>), and emit commands whose streams the script merges (2>&1, 1>&2: the log must keep the order of the writes); every chunk starts with a (job,task,stream,#) marker; task names over letters/digits/_-. space and non-ASCII, in a quarter of the cases two names of one job that differ in a single character (space/underscore, case, accents, CJK); oracle: FileOutputStore.Reader(job,task,stream) equals the concatenation, in order, of that task's chunks for that stream over all its commands, GET /job/logs returns the same as strings (UTF-8 tasks), a task the job does not have and an unknown job give 404; a sixth of the tasks end with a failing command (their output up to it must still be complete) and half of the cases run a second round of the same jobs on the same store; non-trivial = >=64 KiB on a stream or >=2 commands or both streams used, with >=2 tasks writing at once; distinct by (shape of the case)")
 	vh := helper(t)
 	rapid.Check(t, func(rt *rapid.T) {
 		nJobs := rapid.IntRange(1, 6).Draw(rt, "nJobs")
@@ -101,11 +101,23 @@ func TestC19(t *testing.T) {
 		defer os.RemoveAll(specDir)
 		defs := &definition.PipelinesDef{Pipelines: definition.PipelinesMap{}}
 		expects := make([][]taskExpect, nJobs)
-		big, multiCmd, bothStreams, anyFails, merged := false, false, false, false, false
+		big, multiCmd, bothStreams, anyFails, merged, lookalike := false, false, false, false, false, false
 		writers := 0
 		for j := 0; j < nJobs; j++ {
 			nT := rapid.IntRange(1, 4).Draw(rt, "nTasks")
 			names := rapid.SliceOfNDistinct(taskNameGen, nT, nT, rapid.ID[string]).Draw(rt, "taskNames")
+			if nT >= 2 && rapid.IntRange(0, 3).Draw(rt, "lookalikeNames") == 0 {
+				// two tasks whose names differ in one character only (of the kind a file-name
+				// normalisation would fold together): their logs are still two logs
+				pair := rapid.SampledFrom([][2]string{{"unit tests", "unit_tests"}, {"a b", "a-b"}, {"a.b", "a_b"}, {"构建", "测试"}, {"é", "è"}, {"Build", "build"}, {"x y", "x  y"}, {"t:1", "t;1"}, {"ü", "u"}}).Draw(rt, "lookalikePair")
+				names[0], names[1] = pair[0], pair[1]
+				for k := 2; k < nT; k++ {
+					if names[k] == pair[0] || names[k] == pair[1] {
+						names[k] = fmt.Sprintf("other%d", k)
+					}
+				}
+				lookalike = true
+			}
 			pd := definition.PipelineDef{Concurrency: 2, ContinueRunningTasksAfterFailure: true, Tasks: map[string]definition.TaskDef{}, SourcePath: "gen"}
 			for ti, tn := range names {
 				te := taskExpect{name: tn, utf8: rapid.IntRange(0, 3).Draw(rt, "utf8Task") > 0}
@@ -213,7 +225,7 @@ func TestC19(t *testing.T) {
 		}
 		nontrivial := (big || multiCmd || bothStreams) && writers >= 2
 		col.Add(fmt.Sprintf("%d/%d/%v/%v/%v/%v", nJobs, writers, big, multiCmd, bothStreams, expectsShape(expects)), nontrivial,
-			map[string]int{"failing-task": btoi(anyFails), "second-round-after-failure": btoi(anyFails && rounds == 2), "two-rounds": btoi(rounds == 2), ">=64KiB-on-a-stream": btoi(big), ">=2-commands": btoi(multiCmd), "both-streams": btoi(bothStreams), "writers>=2": btoi(writers >= 2), "writers>=6": btoi(writers >= 6), "merged-streams": btoi(merged)}, writers,
+			map[string]int{"failing-task": btoi(anyFails), "second-round-after-failure": btoi(anyFails && rounds == 2), "two-rounds": btoi(rounds == 2), ">=64KiB-on-a-stream": btoi(big), ">=2-commands": btoi(multiCmd), "both-streams": btoi(bothStreams), "writers>=2": btoi(writers >= 2), "writers>=6": btoi(writers >= 6), "merged-streams": btoi(merged), "lookalike-task-names": btoi(lookalike)}, writers,
 			map[string]interface{}{"jobs": nJobs, "tasks_writing": writers, "shape": expectsShape(expects)})
 	})
 }
